@@ -308,7 +308,7 @@ def synthetic_forms():
     for places in (0, 2, 5):
         for j, x in enumerate(floats):
             fields.append(FloatField("f%d_%d" % (places, j), (lambda s, i, v, x=x: float(x)), places=places))
-    for j, x in enumerate([0, 1, -1, 7, 10 ** 6, -10 ** 9, 10 ** 18, 2 ** 70]):
+    for j, x in enumerate([0, 1, -1, 7, 10 ** 6, -10 ** 9, 10 ** 18, 2 ** 70, 2 ** 53 + 1, 12345678901234567891, -(2 ** 63) - 7, 99999999999999999]):
         fields.append(IntegerField("i_%d" % j, (lambda s, i, v, x=x: x)))
     fields.append(BooleanField("b_t", lambda s, i, v: True))
     fields.append(BooleanField("b_f", lambda s, i, v: False))
